@@ -190,6 +190,11 @@ pub fn impl_eval(e: &Expr, facts: &Value) -> String {
     if ctor != direct {
         return format!("(constructors-change-the-result direct {} constructed {})", direct, ctor);
     }
+    // a clone is the same expression
+    let cl = e.clone();
+    if cl != *e {
+        return format!("(clone-differs {})", direct);
+    }
     direct
 }
 
@@ -205,7 +210,21 @@ pub fn build_ruleset(rules: &[Expr], env: &EnvSpec, shared: &Arc<Shared>) -> Res
     let h = hasher.finish();
     let mut b = ruleset();
     // half of the cases hold the rules as built through the public constructors
-    let rs: Vec<Rule> = rules.iter().enumerate().map(|(i, e)| Rule::new(format!("r{}", i), BTreeMap::new(), if h & 8 == 0 { e.clone() } else { via_ctor(e) })).collect();
+    // … and a quarter of them hold rules that went through `Rule::parse` of their own rendering (when that gives the same tree)
+    let rs: Vec<Rule> = rules
+        .iter()
+        .enumerate()
+        .map(|(i, e)| {
+            if h & 48 == 48 {
+                if let Ok(r) = Rule::parse(&format!("// r{}\n{}", i, e)) {
+                    if r.expr() == e && r.name() == format!("r{}", i) {
+                        return r;
+                    }
+                }
+            }
+            Rule::new(format!("r{}", i), BTreeMap::new(), if h & 8 == 0 { e.clone() } else { via_ctor(e) })
+        })
+        .collect();
     if h & 1 == 0 {
         for r in rs {
             b = b.with_rule(r)?;
